@@ -252,7 +252,10 @@ fn cases(full: bool) -> Vec<Case> {
     for cfg in configs::all(true).into_iter().chain(configs::literal()).filter(|c| c.ncomp >= 2) {
         let n = cfg.ncomp;
         // non-core configurations (large programs): the quick tier compares them in plain f64 only
-        let oracle_only = !full && !cfg.core;
+        // ... and so does it for the cross-associating mixtures (largest programs; the canonicaliser cannot decide them because of
+        // the pivoting inside the iterative solver; the hand-built water/methanol cases keep the enclosure comparison in the quick tier)
+        let iterative = ["pcsaft_water_methanol", "gcpcsaft_propanol_ethanol", "saftvrmie_methanol_ethanol"].contains(&cfg.name.as_str());
+        let oracle_only = !full && (!cfg.core || iterative);
         let id: Vec<usize> = (0..n).collect();
         let perm: Vec<usize> = (0..n).map(|j| (j + 1) % n).collect();
         {
